@@ -1,6 +1,8 @@
 \* C12 level A monitor: decides recorded traces; StreakK = 7 consecutive failures of one signal
 \* (>= 37.7 s of unscaled back-off, 1.9 s when scaled by 1/20) by which the healthy signals must have been delivered.
+\* Capacity = 10000: events a signal's channel holds before it truncates (emit_batcher::bounded(10_000) in OtlpBuilder::spawn).
 SPECIFICATION Spec
 CONSTANT StreakK = 7
+CONSTANT Capacity = 10000
 POSTCONDITION TraceAccepted
 CHECK_DEADLOCK FALSE
